@@ -9,6 +9,9 @@ Local Open Scope N_scope.
 (* byte ranges [start, start+len) *)
 Definition rng_disjoint (a b : N * N) : Prop := fst a + snd a <= fst b \/ fst b + snd b <= fst a \/ snd a = 0 \/ snd b = 0.
 
+Lemma rng_disjoint_sym a b : rng_disjoint a b -> rng_disjoint b a.
+Proof. unfold rng_disjoint. tauto. Qed.
+
 Definition hdr_range (eh : N) : N * N := (0, eh).
 Definition data_range (s : section) : N * N := (sh_offset s, csize s).
 Definition shdr_range (shoff es : N) (s : section) : N * N := (shoff + es * s_index s, shdr_size (s_cls s)).
@@ -105,3 +108,224 @@ Proof.
     assert (pos' mod 16 < 16) by (apply N.mod_lt; lia).
     unfold wrap. rewrite N.mod_small by lia. lia.
 Qed.
+
+(* ---------- from disjoint ranges to visible writes ---------- *)
+Definition wrange (w : N * bytes) : N * N := (fst w, lenN (snd w)).
+
+Lemma disjoint_not_in_range (w w' : N * bytes) i :
+  rng_disjoint (wrange w) (wrange w') -> in_range w i = true -> in_range w' i = false.
+Proof.
+  unfold rng_disjoint, wrange, in_range. cbn [fst snd]. intros H Hi.
+  apply andb_true_iff in Hi. destruct Hi as [H1 H2]. apply N.leb_le in H1. apply N.ltb_lt in H2.
+  destruct (N.leb_spec (fst w') i); destruct (N.ltb_spec i (fst w' + lenN (snd w'))); cbn [andb]; try reflexivity. lia.
+Qed.
+
+(* every pair of writes of the plan, in plan order, is disjoint *)
+Fixpoint all_disjoint (p : list (N * bytes)) : Prop :=
+  match p with
+  | [] => True
+  | w :: t => Forall (fun w' => rng_disjoint (wrange w) (wrange w')) t /\ all_disjoint t
+  end.
+
+Lemma all_disjoint_split p : forall before w after, all_disjoint p -> p = before ++ w :: after ->
+  Forall (fun w' => rng_disjoint (wrange w) (wrange w')) after.
+Proof.
+  induction p as [|x t IH]; intros before w after H E; [destruct before; discriminate|].
+  cbn [all_disjoint] in H. destruct H as [H1 H2]. destruct before as [|b bs]; cbn [app] in E; injection E as -> ->.
+  - exact H1.
+  - eapply IH; eauto.
+Qed.
+
+(* a plan of pairwise disjoint writes on a fresh stream: every write is in the file, verbatim *)
+Theorem disjoint_plan_all_visible (p : list (N * bytes)) :
+  all_disjoint p -> plan_small 0 p ->
+  forall w, In w p -> sliceN (os_bytes (exec_plan (new_ostream None) p)) (fst w) (lenN (snd w)) = snd w.
+Proof.
+  intros Hd Hs w Hin. destruct (in_split _ _ Hin) as (before & after & E). rewrite E.
+  destruct new_ostream_ok as [Ok0 G0].
+  apply plan_slice_visible; try assumption.
+  - rewrite <- E. exact Hs.
+  - intros w' i Hw' Hi. pose proof (all_disjoint_split p before w after Hd E) as Hall.
+    rewrite Forall_forall in Hall. eapply disjoint_not_in_range; eauto.
+Qed.
+
+(* the ELF header write of save() on a fresh stream is the first planned write *)
+Lemma save_header_is_planned h :
+  fst (save_header h [] (new_ostream None)) = exec_plan (new_ostream None) [(0, ehdr_bytes h)].
+Proof. reflexivity. Qed.
+
+(* what save() writes for an object without segments, as one plan *)
+Definition sec_writes (enc : endian) (shoff es : N) (s : section) : list (N * bytes) :=
+  (shoff + es * s_index s, shdr_bytes enc s) ::
+  (if negb (csize s =? 0) then match s_data s with Some b => [(sh_offset s, firstnN b (sh_size s))] | None => [] end else []).
+Definition noseg_plan (h : ehdr) (secs : list section) : list (N * bytes) :=
+  (0, ehdr_bytes h) :: flat_map (sec_writes (e_enc h) (e_shoff h) (e_shentsize h)) secs.
+
+Section Plan.
+  Variables (h : ehdr) (secs : list section) (pos' : N).
+  Hypothesis Hchain : chain secs (e_ehsize h) pos'.
+  Hypothesis Hidx : indexed_from 0 secs.
+  Hypothesis Hsh : pos' <= e_shoff h.
+  Hypothesis Hes : forall s, In s secs -> shdr_size (s_cls s) <= e_shentsize h.
+  Hypothesis Hnull : forall s, In s secs -> s_index s = 0 -> csize s = 0.
+  Hypothesis Hident : lenN (e_ident h) = 16.
+  Hypothesis Heh : e_ehsize h = ehdr_size (e_cls h).
+  Hypothesis Hdata : forall s b, In s secs -> s_data s = Some b -> sh_size s <= lenN b.
+
+  Lemma wrange_hdr : wrange (0, ehdr_bytes h) = hdr_range (e_ehsize h).
+  Proof. unfold wrange, hdr_range. cbn [fst snd]. now rewrite lenN_ehdr_bytes, Heh. Qed.
+
+  Lemma sec_writes_ranges s w : In s secs -> In w (sec_writes (e_enc h) (e_shoff h) (e_shentsize h) s) ->
+    wrange w = shdr_range (e_shoff h) (e_shentsize h) s \/ (wrange w = data_range s /\ csize s <> 0).
+  Proof.
+    intros Hs Hw. unfold sec_writes in Hw. destruct Hw as [<-|Hw].
+    - left. unfold wrange, shdr_range. cbn [fst snd]. now rewrite lenN_shdr_bytes.
+    - destruct (N.eqb_spec (csize s) 0) as [E|E]; cbn [negb] in Hw; [contradiction|].
+      destruct (s_data s) as [b|] eqn:Ed; [|contradiction]. destruct Hw as [<-|[]]. right. split; [|exact E].
+      unfold wrange, data_range. cbn [fst snd]. rewrite lenN_firstnN.
+      assert (csize s = sh_size s) by (unfold csize in *; destruct (carries s); [reflexivity|contradiction]).
+      pose proof (Hdata s b Hs Ed). f_equal. lia.
+  Qed.
+
+  (* any two writes belonging to two different sections of the list (in order) are disjoint *)
+  Lemma cross_disjoint pre a mid b post wa wb : secs = pre ++ a :: mid ++ b :: post ->
+    In wa (sec_writes (e_enc h) (e_shoff h) (e_shentsize h) a) -> In wb (sec_writes (e_enc h) (e_shoff h) (e_shentsize h) b) ->
+    rng_disjoint (wrange wa) (wrange wb).
+  Proof.
+    intros E Ha Hb.
+    assert (Ia : In a secs) by (rewrite E; apply in_or_app; right; now left).
+    assert (Ib : In b secs) by (rewrite E; apply in_or_app; right; right; apply in_or_app; right; now left).
+    destruct (sec_writes_ranges a wa Ia Ha) as [Ra|[Ra _]]; destruct (sec_writes_ranges b wb Ib Hb) as [Rb|[Rb _]]; rewrite Ra, Rb.
+    - eapply table_entries_disjoint; eauto.
+    - apply rng_disjoint_sym. eapply table_after_data; eauto.
+    - eapply table_after_data; eauto.
+    - eapply data_disjoint; eauto.
+  Qed.
+
+  Lemma all_disjoint_app x y :
+    all_disjoint x -> all_disjoint y ->
+    (forall wa wb, In wa x -> In wb y -> rng_disjoint (wrange wa) (wrange wb)) -> all_disjoint (x ++ y).
+  Proof.
+    induction x as [|w t IH]; intros Hx Hy Hc; cbn [app all_disjoint]; [exact Hy|].
+    cbn [all_disjoint] in Hx. destruct Hx as [H1 H2]. split.
+    - apply Forall_app. split; [exact H1|]. apply Forall_forall. intros wb Hb. apply Hc; [now left|exact Hb].
+    - apply IH; auto. intros wa wb Ha Hb. apply Hc; [now right|exact Hb].
+  Qed.
+
+  Lemma sec_writes_self s : In s secs -> all_disjoint (sec_writes (e_enc h) (e_shoff h) (e_shentsize h) s).
+  Proof.
+    intros Hs. unfold sec_writes. destruct (N.eqb_spec (csize s) 0) as [E|E]; cbn [negb]; [cbn; auto|].
+    destruct (s_data s) as [b|] eqn:Ed; [|cbn; auto]. cbn [all_disjoint]. split; [|cbn; auto].
+    constructor; [|constructor].
+    assert (R1 : wrange (e_shoff h + e_shentsize h * s_index s, shdr_bytes (e_enc h) s) = shdr_range (e_shoff h) (e_shentsize h) s).
+    { unfold wrange, shdr_range. cbn [fst snd]. now rewrite lenN_shdr_bytes. }
+    assert (R2 : wrange (sh_offset s, firstnN b (sh_size s)) = data_range s).
+    { unfold wrange, data_range. cbn [fst snd]. rewrite lenN_firstnN.
+      assert (csize s = sh_size s) by (unfold csize in *; destruct (carries s); [reflexivity|contradiction]).
+      pose proof (Hdata s b Hs Ed). f_equal. lia. }
+    rewrite R1, R2. apply rng_disjoint_sym. eapply table_after_data; eauto.
+  Qed.
+
+  Lemma flat_all_disjoint : forall l pre, secs = pre ++ l ->
+    all_disjoint (flat_map (sec_writes (e_enc h) (e_shoff h) (e_shentsize h)) l).
+  Proof.
+    induction l as [|a t IH]; intros pre E; cbn [flat_map]; [exact I|].
+    assert (Ia : In a secs) by (rewrite E; apply in_or_app; right; now left).
+    apply all_disjoint_app.
+    - now apply sec_writes_self.
+    - apply (IH (pre ++ [a])). rewrite <- app_assoc. exact E.
+    - intros wa wb Ha Hb. apply in_flat_map in Hb. destruct Hb as (b & Hbt & Hwb).
+      destruct (in_split _ _ Hbt) as (mid & post & Et).
+      eapply (cross_disjoint pre a mid b post); eauto. rewrite E, Et. reflexivity.
+  Qed.
+
+  Theorem noseg_plan_disjoint : all_disjoint (noseg_plan h secs).
+  Proof.
+    unfold noseg_plan. cbn [all_disjoint]. split; [|apply (flat_all_disjoint secs []); reflexivity].
+    apply Forall_forall. intros w Hw. apply in_flat_map in Hw. destruct Hw as (s & Hs & Hw).
+    rewrite wrange_hdr. destruct (sec_writes_ranges s w Hs Hw) as [R|[R _]]; rewrite R.
+    - eapply table_after_header; eauto.
+    - eapply data_after_header; eauto.
+  Qed.
+
+  (* every write of the plan — ELF header, each section header, each section's
+     data — is found verbatim in the saved file *)
+  Theorem noseg_file_contents :
+    plan_small 0 (noseg_plan h secs) ->
+    let file := os_bytes (exec_plan (new_ostream None) (noseg_plan h secs)) in
+    sliceN file 0 (ehdr_size (e_cls h)) = ehdr_bytes h /\
+    (forall s, In s secs ->
+       sliceN file (e_shoff h + e_shentsize h * s_index s) (shdr_size (s_cls s)) = shdr_bytes (e_enc h) s) /\
+    (forall s b, In s secs -> csize s <> 0 -> s_data s = Some b ->
+       sliceN file (sh_offset s) (sh_size s) = firstnN b (sh_size s)).
+  Proof.
+    intros Hs. cbv zeta. pose proof noseg_plan_disjoint as Hd.
+    split; [|split].
+    - pose proof (disjoint_plan_all_visible _ Hd Hs (0, ehdr_bytes h) ltac:(now left)) as V. cbn [fst snd] in V.
+      now rewrite lenN_ehdr_bytes in V.
+    - intros s Hin.
+      pose proof (disjoint_plan_all_visible _ Hd Hs (e_shoff h + e_shentsize h * s_index s, shdr_bytes (e_enc h) s)) as V.
+      cbn [fst snd] in V. rewrite lenN_shdr_bytes in V. apply V. right. apply in_flat_map. exists s. split; [exact Hin|now left].
+    - intros s b Hin Hc Ed.
+      pose proof (disjoint_plan_all_visible _ Hd Hs (sh_offset s, firstnN b (sh_size s))) as V. cbn [fst snd] in V.
+      rewrite lenN_firstnN in V. replace (N.min (sh_size s) (lenN b)) with (sh_size s) in V by (pose proof (Hdata s b Hin Ed); lia).
+      apply V. right. apply in_flat_map. exists s. split; [exact Hin|]. unfold sec_writes. right.
+      destruct (N.eqb_spec (csize s) 0); [contradiction|]. cbn [negb]. rewrite Ed. now left.
+  Qed.
+End Plan.
+
+(* ---------- what sections_plan emits ---------- *)
+Section PlanOf.
+  Variable junk : N -> N.
+
+  Definition ready (s : section) : Prop :=
+    sh_offset s < 2 ^ xw (s_cls s) /\
+    (csize s <> 0 -> forall b, s_data s = Some b -> s_loaded s = true /\ sh_size s <= lenN b).
+
+  Lemma entry_pos_plain shoff es idx : shoff < 2 ^ 63 -> entry_pos shoff es idx = shoff + es * idx.
+  Proof.
+    intros H. unfold entry_pos, to_signed64. rewrite N.mod_small by lia.
+    destruct (N.ltb_spec shoff (2 ^ 63)); lia.
+  Qed.
+
+  Lemma with_offset_same s : sh_offset s < 2 ^ xw (s_cls s) -> with_offset s (sh_offset s) = s.
+  Proof. intros H. destruct s; cbn in *. unfold with_offset; cbn. f_equal. unfold wrap. now apply N.mod_small. Qed.
+
+  Lemma csize_nonzero_b s :
+    negb (csize s =? 0) = negb (sh_type s =? SHT_NOBITS) && negb (sh_type s =? SHT_NULL) && negb (sh_size s =? 0).
+  Proof.
+    unfold csize, carries. destruct (negb (sh_type s =? SHT_NOBITS) && negb (sh_type s =? SHT_NULL)); cbn [andb]; reflexivity.
+  Qed.
+
+  Lemma section_plan_ready enc st t s hpos : ready s ->
+    section_plan junk enc st t s hpos =
+      Ok (st, s, (hpos, shdr_bytes enc s) ::
+                 (if negb (csize s =? 0) then match s_data s with Some b => [(sh_offset s, firstnN b (sh_size s))] | None => [] end else [])).
+  Proof.
+    intros [Ho Hr]. unfold section_plan.
+    assert (E1 : (if s_index s =? 0 then s else with_offset s (sh_offset s)) = s).
+    { destruct (s_index s =? 0); [reflexivity|now apply with_offset_same]. }
+    rewrite E1, csize_nonzero_b.
+    destruct (negb (sh_type s =? SHT_NOBITS) && negb (sh_type s =? SHT_NULL) && negb (sh_size s =? 0)) eqn:Ec; cbn [andb]; [|reflexivity].
+    destruct (s_data s) as [b|] eqn:Ed; [|reflexivity].
+    assert (Hc : csize s <> 0).
+    { intro Hz. pose proof (csize_nonzero_b s) as Hb. rewrite Ec, Hz in Hb. discriminate. }
+    destruct (Hr Hc b eq_refl) as [Hl Hb].
+    unfold sec_get_data. rewrite Hl. cbn [negb andb bind]. rewrite Ed.
+    rewrite rd_some by lia. cbn [bind]. unfold sliceN. rewrite skipnN_0. reflexivity.
+  Qed.
+
+  Theorem sections_plan_noseg enc h st : forall todo done acc,
+    e_shoff h < 2 ^ 63 -> Forall ready todo ->
+    sections_plan junk enc h [] st done todo acc =
+      Ok (st, rev_append done [] ++ todo, acc ++ flat_map (sec_writes enc (e_shoff h) (e_shentsize h)) todo).
+  Proof.
+    induction todo as [|s t IH]; intros done acc H63 Hr; cbn [sections_plan flat_map].
+    - now rewrite !app_nil_r.
+    - inversion Hr as [|? ? Hs Ht]; subst.
+      rewrite (section_plan_ready enc st [] s _ Hs). cbn [bind].
+      rewrite IH by assumption. f_equal. f_equal; [f_equal|].
+      + rewrite !rev_append_rev. cbn [rev]. rewrite !app_nil_r, <- app_assoc. reflexivity.
+      + rewrite <- app_assoc. f_equal. unfold sec_writes. rewrite entry_pos_plain by exact H63. reflexivity.
+  Qed.
+End PlanOf.
